@@ -10,12 +10,14 @@ from .. import docgen as D, grammar as G, kdoc as K, malformed as MF, spine as S
 from ..common import Bad, Result, Problem
 
 ID = 'C12'
+SHARDS_QUICK = 4
 RULE = ('(a) Hypothesis documents (profile "full" without blank lines) in which 1-4 cells (notes, rests, chords, '
         'interpretations, barlines, nulls, lyrics - never headers or spine operators) are replaced by malformed text '
         'of four labelled kinds: unknown character (outside the lexer vocabulary, at any position of a note/rest/chord/'
         'barline), truncated token, wrong order, complete token + garbage - plus randomly edited notes (insert / delete / '
         'swap / replace a character) whose validity the harness does not know: for those only isolation, single '
-        'reporting and "no character silently lost" are required.  Oracle: differential against the import of '
+        'reporting and "no character silently lost" are required; one cell in ten of a multi-column row is emptied '
+        'completely (limit case of truncation: import clauses only, the export shows a placeholder).  Oracle: differential against the import of '
         'the undamaged document: loads does not raise; exactly one ErrorToken per damaged **kern/**root cell with its '
         'text and 1-based line, none for other spines; every undamaged token has the same class, category, encoding and '
         'export; dumps shows every damaged cell verbatim in place.  (b) a Hypothesis RuleBasedStateMachine that keeps '
@@ -55,6 +57,9 @@ def cases(draw):
         if same_text and first is not None:
             m = dict(first)  # the same malformed text in several cells
         first = first or m
+        if len(doc['rows'][i]['c']) >= 2 and draw(st.integers(0, 9)) == 0:
+            # the limit case of a truncated token: nothing at all between two tabs (import clauses only, see check)
+            m = {'t': '', 'kind': 'empty', 'strict': True}
         dmg.append({'row': i, 'col': k, **m})
     case = {'doc': doc, 'damage': dmg, 'file': draw(st.booleans())}  # imported from a file in half of the cases
     if draw(st.integers(0, 3)) == 0:
@@ -103,7 +108,7 @@ def check(case):
         raise Bad('import-raised', f'{"load(file)" if case.get("file") else "loads"} raised {type(e).__name__}: {e} for\n{text2}')
     problems = []
     got_err = sorted((e.line, e.encoding) for e in errs)
-    strict_exp = sorted((phys[r], d['t']) for (r, c), d in dmg.items() if d['typ'] in KERNLIKE and d['strict'])
+    strict_exp = sorted((phys[r], d['t']) for (r, c), d in dmg.items() if (d['typ'] in KERNLIKE or d['kind'] == 'empty') and d['strict'])
     loose_exp = sorted((phys[r], d['t']) for (r, c), d in dmg.items() if d['typ'] in KERNLIKE and not d['strict'])  # incl. mutated
     # errors that correspond to no damaged kern cell, or are reported more than once
     allowed = strict_exp + loose_exp
@@ -147,6 +152,11 @@ def check(case):
     for (ri, k), d in dmg.items():
         tok = st2[ri + 1][k].token
         g = K.strip_sep(tok.export())
+        if d['kind'] == 'empty':
+            # an empty field has no text to preserve: the export shows a placeholder; only the import clauses apply
+            actual[(ri, k)] = '.'
+            doc3['rows'][ri]['c'][k] = dict(doc3['rows'][ri]['c'][k], k='null')
+            continue
         actual[(ri, k)] = g
         if g in K.NULLS:
             doc3['rows'][ri]['c'][k] = dict(doc3['rows'][ri]['c'][k], k='null')
@@ -291,9 +301,9 @@ class ImporterHistory(RuleBasedStateMachine):
 
 
 def run(ctx):
-    n = 250 if ctx.quick else 2000
+    n = 80 if ctx.quick else 2000
     ctx.run_hypothesis(cases(), check, max_examples=n, label='damage')
-    ctx.run_machine(ImporterHistory, check_history, max_examples=150 if ctx.quick else 1500, step_count=30, salt=1, label='history')
+    ctx.run_machine(ImporterHistory, check_history, max_examples=50 if ctx.quick else 1500, step_count=30, salt=1, label='history')
 
 
 def replay(case):
